@@ -19,14 +19,35 @@
        index, by value or by index; the recorded positions are the normalised ones).
    PARTIAL (names end with _partial): the word-level theorems - invariant of the (done, undone)
    history and `k undos then k redos = identity` (observations equal, stack literally equal) -
-   hold for words whose executed commands are of the kinds above.  MISSING as theorems: references
-   with an opposite or containment (the property's "no stealing" side condition only matters
-   there), Delete, Compound.  For these the model is tied to the implementation by the
-   correspondence only, and the implementation is known NOT to satisfy the property in the
-   situations listed in known_findings.json (ids F-C06-...); two of them are exhibited on the model
-   below (C06_relink_order_refuted, C06_compound_can_undo_refuted). *)
+   hold for words whose executed commands are of the kinds above (first group) or, second group
+   (Proofs/C06Refs.v, metamodels WITHOUT containment, invariant J = opposite ends symmetric and
+   shaped (C01) + typed slots (C03) + duplicate-free unique attribute collections), also of the
+   following kinds on references WITH an opposite (non self-opposite), each under the property's
+   side condition "the command does not take its value away from an opposite partner":
+     * Set on a single-valued reference (1-1 and 1-n), any previous value, new value None or an
+       object that is nobody's partner yet (C06_set_ref_undo_redo),
+     * Add on a many-valued reference, n-1 (the added element has no partner) and n-n
+       (C06_add_ref_undo_redo),
+     * Remove on a many-valued reference, n-1 and n-n (C06_remove_ref_undo_redo).
+   Where undo re-links through append() on a MANY-valued opposite end (Set 1-n with a previous
+   partner, Remove n-n) the exact (list) theorems carry the hypothesis that the owner was the LAST
+   element of its partner's collection; in general only the members come back, the owner at the end:
+   C06_set_ref_1n_members_partial, C06_remove_ref_nn_members_partial - and the list statement is
+   false: C06_relink_order_refuted, C06_set_1n_relink_refuted (known finding F-C06-relink-order; the
+   property tolerates such a reordering only after undoing a Delete).
+   Third group (any metamodel): containment references WITHOUT opposite - Add / Remove on a
+   containment collection and Set on a single-valued containment, when the child put under the
+   owner is neither contained nor a resource root: values, order and CONTAINERS come back
+   (C06_add_containment_undo_redo, C06_remove_containment_undo_redo, C06_set_containment_undo_redo;
+   per command, not lifted to words: the global invariant for the linking direction with
+   containment is not available yet).
+   MISSING as theorems: containment together with an opposite (container ends), self-opposite
+   references, Move on references, Delete, Compound.  For these the model is tied to the implementation by the correspondence only, and the
+   implementation is known NOT to satisfy the property in the situations listed in
+   known_findings.json (ids F-C06-...); C06_compound_can_undo_refuted exhibits one on the model. *)
 From Coq Require Import ZArith List Bool.
-From PyecoreV Require Import Lib.PyBase Lib.PyList Model.Kernel Model.Commands Proofs.C06Proofs.
+From PyecoreV Require Import Lib.PyBase Lib.PyList Model.Kernel Model.Commands
+     Proofs.C01Proofs Proofs.C01Full Proofs.C03Proofs Proofs.C06Proofs Proofs.C06Refs.
 Import ListNotations.
 Open Scope Z_scope.
 
@@ -167,4 +188,197 @@ Example C06_compound_can_undo_refuted :
   let ms := st_run ex_mm (s0, empty_stack)
                    [SExec (CCompound [CAdd 0%nat 1%nat (VInt 7) (Some 0); CRemove 0%nat 1%nat VNone (Some 0)])] in
   sidx (snd ms) = 0 /\ fst (st_step ex_mm ms SUndo) = None /\ sidx (snd (snd (st_step ex_mm ms SUndo))) = 0.
+Proof. vm_compute. repeat split; reflexivity. Qed.
+
+(* ====================================================================== *)
+(* References with an opposite (no containment): Proofs/C06Refs.v          *)
+(* ====================================================================== *)
+Open Scope nat_scope.
+
+(* Set x.f = v, f single-valued with opposite g (single- or many-valued), from any state satisfying the
+   C01 invariant and typed (C03): undo (x.f = previous value) restores every slot, redo restores the state
+   after the command.  free_for: v's g-slot is [None] (g single) / does not hold x (g many). *)
+Theorem C06_set_ref_undo_redo :
+  forall m, no_containment m -> wf_opp m ->
+  forall f g, f_opp (fd m f) = Some g -> f <> g ->
+  forall s x v p s' c',
+    f_many (fd m f) = false -> Inv m s -> typed m s ->
+    (forall y, v = VObj y -> free_for m g (vals s) x y) ->
+    (f_many (fd m g) = true -> forall q, vals s (x, f) = [VObj q] -> lastv (VObj x) (vals s (q, g))) ->
+    execute m s (CSet x f v p) = ((None, s'), c') ->
+    inverts m c' s s' /\
+    (forall k, vals s' k = Att m g v (Rel m g (single s (x, f)) (upd (vals s) (x, f) [v]) x) x k) /\
+    crr s' = crr s /\ s' = snd (set_full m s (x, f) v).
+Proof. exact set_ref_inverts. Qed.
+Print Assumptions C06_set_ref_undo_redo.
+
+Theorem C06_add_ref_undo_redo :
+  forall m, no_containment m -> wf_opp m ->
+  forall f g, f_opp (fd m f) = Some g -> f <> g ->
+  forall s x y idx c1 s' c',
+    f_many (fd m f) = true -> Inv m s ->
+    (f_many (fd m g) = false -> vals s (y, g) = [VNone]) ->
+    can_execute m s (CAdd x f (VObj y) idx) = (Ok true, c1) ->
+    execute m s c1 = ((None, s'), c') ->
+    exists i', c' = CAdd x f (VObj y) (Some i') /\
+               inverts m c' s s' /\
+               (forall k, vals s' k = upd (attv m g (vals s) x y) (x, f) (py_insert i' (VObj y) (vals s (x, f))) k) /\
+               crr s' = crr s /\ exists pos, s' = snd (coll_add_full m s (x, f) pos (VObj y)).
+Proof. exact add_ref_inverts. Qed.
+Print Assumptions C06_add_ref_undo_redo.
+
+Theorem C06_remove_ref_undo_redo :
+  forall m, no_containment m -> wf_opp m ->
+  forall f g, f_opp (fd m f) = Some g -> f <> g ->
+  forall s x v idx c1 s' c',
+    f_many (fd m f) = true -> Inv m s -> typed m s ->
+    (forall w, In w (vals s (x, f)) -> exists o, w = VObj o) ->
+    (f_many (fd m g) = true -> forall y, rm_target f s x v idx y -> lastv (VObj x) (vals s (y, g))) ->
+    can_execute m s (CRemove x f v idx) = (Ok true, c1) ->
+    execute m s c1 = ((None, s'), c') ->
+    exists i y l2, c' = CRemove x f (VObj y) (Some i) /\
+                   inverts m c' s s' /\
+                   (forall k, vals s' k = upd (relv m g (vals s) x y) (x, f) l2 k) /\ crr s' = crr s /\
+                   s' = snd (fst (coll_pop_full m s (x, f) i)).
+Proof. exact remove_ref_inverts. Qed.
+Print Assumptions C06_remove_ref_undo_redo.
+
+(* the general many-to-many / one-to-many case: undo brings every slot back except that the partner's
+   collection holds the same members with the owner at the END (F-C06-relink-order) *)
+Theorem C06_remove_ref_nn_members_partial :
+  forall m, no_containment m -> wf_opp m ->
+  forall f g, f_opp (fd m f) = Some g -> f <> g ->
+  forall s x v idx c1 s' c',
+    f_many (fd m f) = true -> f_many (fd m g) = true -> Inv m s -> typed m s ->
+    (forall w, In w (vals s (x, f)) -> exists o, w = VObj o) ->
+    can_execute m s (CRemove x f v idx) = (Ok true, c1) ->
+    execute m s c1 = ((None, s'), c') ->
+    exists y t', rm_target f s x v idx y /\ can_undo m s' c' = Ok true /\ undo m s' c' = ((None, t'), c') /\
+                 (forall k, k <> (y, g) -> vals t' k = vals s k) /\
+                 (forall b, In (VObj b) (vals t' (y, g)) <-> In (VObj b) (vals s (y, g))) /\
+                 lastv (VObj x) (vals t' (y, g)) /\ crr t' = crr s.
+Proof. exact remove_ref_undo_members. Qed.
+Print Assumptions C06_remove_ref_nn_members_partial.
+
+Theorem C06_set_ref_1n_members_partial :
+  forall m, no_containment m -> wf_opp m ->
+  forall f g, f_opp (fd m f) = Some g -> f <> g ->
+  forall s x v p s' c' q,
+    f_many (fd m f) = false -> f_many (fd m g) = true -> Inv m s -> typed m s ->
+    (forall y, v = VObj y -> free_for m g (vals s) x y) ->
+    vals s (x, f) = [VObj q] ->
+    execute m s (CSet x f v p) = ((None, s'), c') ->
+    exists t', can_undo m s' c' = Ok true /\ undo m s' c' = ((None, t'), c') /\
+               (forall k, k <> (q, g) -> vals t' k = vals s k) /\
+               (forall b, In (VObj b) (vals t' (q, g)) <-> In (VObj b) (vals s (q, g))) /\
+               lastv (VObj x) (vals t' (q, g)) /\ crr t' = crr s.
+Proof. exact set_ref_undo_members. Qed.
+Print Assumptions C06_set_ref_1n_members_partial.
+
+(* the word-level theorems with the reference kinds included; run_ok: every executed command meets its side
+   condition (covered2) in the state it is executed in *)
+Theorem C06_words_invariant_refs_partial :
+  forall m, no_containment m -> wf_opp m -> ref_typed m ->
+  forall s0 w,
+    J m s0 -> run_ok m (covered2 m) (s0, [], []) w ->
+    ginv m (J m) (abs (st_run m (s0, empty_stack) w)).
+Proof. exact refs_invariant_of_words. Qed.
+Print Assumptions C06_words_invariant_refs_partial.
+
+Theorem C06_k_undo_k_redo_refs_partial :
+  forall m, no_containment m -> wf_opp m -> ref_typed m ->
+  forall s0 w k,
+    J m s0 -> run_ok m (covered2 m) (s0, [], []) w ->
+    let ms := st_run m (s0, empty_stack) w in
+    k <= length (done_of (snd ms)) ->
+    let ms' := st_run m ms (repeat SUndo k ++ repeat SRedo k) in
+    obs_eq (fst ms') (fst ms) /\ snd ms' = snd ms.
+Proof. exact refs_k_undo_k_redo. Qed.
+Print Assumptions C06_k_undo_k_redo_refs_partial.
+
+(* ---------- non-vacuity ---------- *)
+Example C06_refs_premises_witness :
+  no_containment ex_mm_refs /\ wf_opp ex_mm_refs /\ ref_typed ex_mm_refs /\ J ex_mm_refs (init_state ex_mm_refs).
+Proof. exact ex_mm_refs_ok. Qed.
+
+(* a word with Set 1-1, Set 1-n (without and with a previous partner), Add n-n, Remove n-n, an unset, an
+   attribute, undo and redo meets run_ok ... *)
+Example C06_refs_word_witness :
+  run_ok ex_mm_refs (covered2 ex_mm_refs) (init_state ex_mm_refs, [], []) ex_refs_word.
+Proof. exact ex_refs_word_ok. Qed.
+
+(* ... and really links objects, then 8 undos + 8 redos give the same slots and the same stack *)
+Example C06_refs_word_result :
+  let ms := st_run ex_mm_refs (init_state ex_mm_refs, empty_stack) ex_refs_word in
+  vals (fst ms) (0, 3) = [VObj 3] /\ vals (fst ms) (1, 4) = [VObj 2] /\ vals (fst ms) (3, 4) = [VObj 0] /\
+  vals (fst ms) (1, 6) = [VObj 0] /\ vals (fst ms) (0, 1) = [VNone] /\ sidx (snd ms) = 7%Z /\
+  let ms' := st_run ex_mm_refs ms (repeat SUndo 8 ++ repeat SRedo 8) in
+  vals (fst ms') (1, 4) = [VObj 2] /\ vals (fst ms') (1, 6) = [VObj 0] /\ sidx (snd ms') = 7%Z.
+Proof. vm_compute. repeat split; reflexivity. Qed.
+
+(* ---------- the list statement is false in general (F-C06-relink-order) ---------- *)
+(* o1.ban = [o0, o2]; Set(o0.ab1, o3) then undo gives o1.ban = [o2, o0]: same members, other order *)
+Example C06_set_1n_relink_refuted :
+  let s0 := fold_left (next ex_mm_refs) [OSet 0 3 (VObj 1); OSet 2 3 (VObj 1)] (init_state ex_mm_refs) in
+  let ms := st_run ex_mm_refs (s0, empty_stack) [SExec (CSet 0 3 (VObj 3) VNone); SUndo] in
+  vals s0 (1, 4) = [VObj 0; VObj 2] /\ vals (fst ms) (1, 4) = [VObj 2; VObj 0] /\
+  vals (fst ms) (0, 3) = vals s0 (0, 3) /\ vals (fst ms) (3, 4) = vals s0 (3, 4).
+Proof. vm_compute. repeat split; reflexivity. Qed.
+
+(* ====================================================================== *)
+(* Containment references without opposite, any metamodel                   *)
+(* ====================================================================== *)
+(* unowned m s y: y has no container and is not listed as a root of the resource it belongs to - putting
+   it under x takes it away from nobody.  The theorems say that values with order AND the container of
+   the child come back (cell_and_cont: one slot and the container of one object change). *)
+Theorem C06_add_containment_undo_redo :
+  forall m s x f y idx c1 s' c',
+    cont_plain m f -> f_many (fd m f) = true -> unowned m s y ->
+    can_execute m s (CAdd x f (VObj y) idx) = (Ok true, c1) ->
+    execute m s c1 = ((None, s'), c') ->
+    exists i', c' = CAdd x f (VObj y) (Some i') /\
+               inverts m c' s s' /\
+               cell_and_cont s s' (x, f) (py_insert i' (VObj y) (vals s (x, f))) y (Some (x, f)).
+Proof. exact add_cont_inverts. Qed.
+Print Assumptions C06_add_containment_undo_redo.
+
+Theorem C06_remove_containment_undo_redo :
+  forall m s x f v idx c1 s' c',
+    cont_plain m f -> f_many (fd m f) = true -> cell_wt m f (vals s (x, f)) ->
+    (forall w, In w (vals s (x, f)) -> exists y, w = VObj y /\ cont s y = Some (x, f) /\ not_root s y) ->
+    can_execute m s (CRemove x f v idx) = (Ok true, c1) ->
+    execute m s c1 = ((None, s'), c') ->
+    exists i y l2, c' = CRemove x f (VObj y) (Some i) /\
+                   inverts m c' s s' /\ cell_and_cont s s' (x, f) l2 y None.
+Proof. exact remove_cont_inverts. Qed.
+Print Assumptions C06_remove_containment_undo_redo.
+
+Theorem C06_set_containment_undo_redo :
+  forall m s x f v p0 s' c',
+    cont_plain m f -> f_many (fd m f) = false -> cell_wt m f (vals s (x, f)) ->
+    (forall y, v = VObj y -> unowned m s y) ->
+    (forall p, vals s (x, f) = [VObj p] -> cont s p = Some (x, f) /\ not_root s p) ->
+    execute m s (CSet x f v p0) = ((None, s'), c') ->
+    inverts m c' s s' /\
+    (forall k, vals s' k = upd (vals s) (x, f) [v] k) /\
+    (forall o, cont s' o = cont_after (cont s) x f v (single s (x, f)) o).
+Proof. exact set_cont_inverts. Qed.
+Print Assumptions C06_set_containment_undo_redo.
+
+Example C06_containment_premises_witness :
+  cont_plain ex_mm_cont 0 /\ cont_plain ex_mm_cont 1 /\ unowned ex_mm_cont (init_state ex_mm_cont) 1.
+Proof. exact ex_mm_cont_premises. Qed.
+
+(* Add(o0.ckids, o1); Set(o0.ckid, o2); Set(o0.ckid, o3); Remove(o0.ckids, index -1), then 4 undos, then 2 redos:
+   containers follow *)
+Example C06_containment_word_witness :
+  let w := [SExec (CAdd 0 0 (VObj 1) None); SExec (CSet 0 1 (VObj 2) VNone); SExec (CSet 0 1 (VObj 3) VNone);
+            SExec (CRemove 0 0 VNone (Some (-1)%Z))] in
+  let ms := st_run ex_mm_cont (init_state ex_mm_cont, empty_stack) w in
+  cont (fst ms) 1 = None /\ cont (fst ms) 2 = None /\ cont (fst ms) 3 = Some (0, 1) /\
+  let ms1 := st_run ex_mm_cont ms [SUndo; SUndo] in
+  cont (fst ms1) 1 = Some (0, 0) /\ cont (fst ms1) 2 = Some (0, 1) /\ cont (fst ms1) 3 = None /\
+  vals (fst ms1) (0, 0) = [VObj 1] /\
+  let ms2 := st_run ex_mm_cont ms1 [SUndo; SUndo; SRedo; SRedo] in
+  cont (fst ms2) 1 = Some (0, 0) /\ cont (fst ms2) 2 = Some (0, 1) /\ vals (fst ms2) (0, 1) = [VObj 2].
 Proof. vm_compute. repeat split; reflexivity. Qed.
